@@ -23,6 +23,9 @@ CHECKS = {
  "C14": dict(text="TLC checks on the PathText model that Parse(Print(a)) evaluates like a for every equation tree to depth 2 under the safe parenthesisation rule and finds the counterexamples for the two rules the code uses; expressions and equations built through the public constructors (every fragment kind x key byte class x position, every (parent, child, side) operator triple, constants of every kind) are printed, parsed, printed again and evaluated; TLC (TraceC14) requires no parse error, identical print, identical evaluation and, for equations, agreement with Script!Expect.",
              note="Trusted: Script.tla for equation values; path evaluation is only compared original vs re-parsed. Expression length <= 4, one document family. Known-finding patterns grouped by 10 root causes (triage per root cause); the descent-related patterns are broad.",
              tech="TLA+ spec (PathText + Script) + TLC design check with expected counterexamples + TLC trace validation of recorded round trips", ref="6/C14"),
+ "C17": dict(text="StreamMatch.tla states the property over JsonPath!Locs (the targets' locations, outermost only, in document order, with their values) and gives the event-machine formulation of a streaming matcher (current location, stack of partially built containers, calls made), one action per token event; TLC checks the two equal on small documents for every target a stream can decide. The real oj.Match/MatchString/MatchLoad and sen.Match/MatchLoad (whole, 1-byte, 3-byte, half reads) are run on seeded random documents x target sets (child, index, wildcard, union, slice, descent, trailing filter, one or two targets) and every recorded callback sequence (normalised path, value) is compared by TLC with Expected.",
+             note="Trusted: JsonPath!Locs as the meaning of the targets (the C05 oracle); the harness writes members in key order so that document order is defined. Targets containing a slice, a negative index or a filter deviate by design/documentation and are known findings with patterns on exactly those fragment kinds; all other target shapes are strict.",
+             tech="TLA+ spec (StreamMatch over JsonPath) + TLC design check (event machine = denotation) + TLC trace validation of recorded callbacks", ref="6/C17"),
 }
 NA_REASON = "check not built yet in this round; planned with the TLA+ specification named in DESIGN.md section 6 (no different technique is substituted)"
 
